@@ -71,6 +71,15 @@ def main(tier, seed, replay=None):
         M, P = COMBOS[j % 3]
         cases.append(statsrun.gen_stats_case(rng, M, P, M + P + rng.randint(3, 9), scalar="f64", weights=["none", "pos", "neg"][j % 3], noise=0.05,
                                              quant=(8 if j % 2 else None), probs=[0.683], yscale=(2.0 ** -30 if j % 2 else 2.0 ** -60)))
+    # a user threshold that truncates some (not all) singular values of the weighted basis matrix at the solution: the statistics are
+    # those of the coefficients the fit reports (H is built from them)
+    for j in range(8 if tier == "quick" else 100):
+        M, P = [(3, 1), (3, 2), (2, 1), (3, 3)][j % 4]
+        c = statsrun.gen_stats_case(rng, M, P, M + P + rng.randint(4, 9), scalar="f64", weights=["none", "pos", "const"][j % 3], noise=0.05,
+                                    quant=(8 if j % 2 else None), probs=[0.683])
+        c["build"].append(["eps", hx([0.3, 0.6, 1.0, -0.5][j % 4], "f64")])
+        c["meta"]["user_eps"] = True
+        cases.append(c)
     # a parameter shared by two basis functions (its derivative matrix has two non-zero columns)
     for j in range(6 if tier == "quick" else 80):
         M = 2 + j % 3
